@@ -78,7 +78,11 @@ func TestVerifDriverC01(t *testing.T) {
 	}
 	fails := 0
 	rounds := 0
-	for round := 0; round < 6; round++ {
+	nRounds := 6
+	if os.Getenv("VERIF_DRIVER_REASON") == "thorough" {
+		nRounds = 24 // thorough tier
+	}
+	for round := 0; round < nRounds; round++ {
 		cached := round%2 == 1
 		rounds++
 		rep := &vdC01Rep{sums: map[string]int64{}}
